@@ -568,7 +568,7 @@ Definition chk_step_C11 : step_chk := fun prev x o ob =>
       | _ => rows_eqb (sn_rows prev) (sn_rows post) && strs_eqb (sn_colls prev) (sn_colls post)
       end
   | SPurge => strs_eqb (sn_colls prev) (sn_colls post)
-  | SDump _ _ | SQuery _ _ | SPutDDoc _ _ _ | SDelDDoc _ _ | SView _ _ _ _ | SDumpKeys _ _ | SDraw _ _ _ _ => rows_eqb (sn_rows prev) (sn_rows post) && strs_eqb (sn_colls prev) (sn_colls post)
+  | SDump _ _ | SQuery _ _ | SPutDDoc _ _ _ | SDelDDoc _ _ | SView _ _ _ _ | SDumpKeys _ _ | SGetDDocs _ | SDraw _ _ _ _ => rows_eqb (sn_rows prev) (sn_rows post) && strs_eqb (sn_colls prev) (sn_colls post)
   | SExpire | SReopen => strs_eqb (sn_colls prev) (sn_colls post)
   end.
 
@@ -615,6 +615,8 @@ Definition chk_row_C18 : rowchk := fun key coll x op pre resp evs post =>
            | _, _, _, _ => false
            end
       else same_view pre post
+           (* with no CAS supplied the call retries when it loses a race: it never reports a CAS mismatch *)
+           && negb ((cas =? 0) && match resp with RErr ECasMismatch => true | _ => false end)
   | KGetSubDocRaw path =>
       match resp, parse_path path, body_obj pre with
       | RVal s c, Some p, Some (Some m) =>
